@@ -243,7 +243,11 @@ type caseC12bytes struct {
 func gen32AroundP(t *rapid.T) *big.Int {
 	two256 := new(big.Int).Lsh(bigOne, 256)
 	var v *big.Int
-	switch rapid.IntRange(0, 5).Draw(t, "k32") {
+	switch rapid.IntRange(0, 7).Draw(t, "k32") {
+	case 6:
+		v = gen.PerturbWords(t, ref.P, 64)
+	case 7:
+		v = gen.PerturbWords(t, ref.P, 32)
 	case 0:
 		v = gen.Int(ref.P).Draw(t, "v")
 	case 1:
